@@ -133,7 +133,14 @@ func (r *reg) consistentFor(tag string, denom string, addr common.Address) {
 			rt.Assert(tag+"-pair-found-by-its-address", rt.BytesEq(r.k.GetERC20Map(r.ctx, p.GetERC20Contract()), id))
 			for _, d := range p.Denoms {
 				rt.Assert(tag+"-pair-found-by-each-denomination", rt.BytesEq(r.k.GetDenomMap(r.ctx, d), id))
+				// ... also through the lookup the conversions and proposals use (token = denomination or contract address)
+				// (a denomination that has the form of a hex address - 40 hex digits - is read as a contract address by
+				// GetTokenPairID; such denominations are outside this claim, see checks.json)
+				if !common.IsHexAddress(d) {
+					rt.Assert(tag+"-lookup-by-denomination-finds-the-pair", rt.BytesEq(r.k.GetTokenPairID(r.ctx, d), id))
+				}
 			}
+			rt.Assert(tag+"-lookup-by-contract-finds-the-pair", rt.BytesEq(r.k.GetTokenPairID(r.ctx, p.ERC20Address), id))
 		}
 	}
 	if id := r.k.GetERC20Map(r.ctx, addr); len(id) != 0 {
@@ -150,7 +157,10 @@ func (r *reg) consistentFor(tag string, denom string, addr common.Address) {
 
 // convertible: a coin of this denomination finds its pair (the registry part of MintingEnabled).
 func (r *reg) convertible(denom string) bool {
-	id := r.k.GetDenomMap(r.ctx, denom)
+	if common.IsHexAddress(denom) {
+		return false // outside the claim (see consistentFor)
+	}
+	id := r.k.GetTokenPairID(r.ctx, denom)
 	if len(id) == 0 {
 		return false
 	}
